@@ -110,6 +110,14 @@ func (s *Solver) send(text string) {
 	io.WriteString(s.in, text)
 }
 
+// SetTimeout changes the per-query timeout of the running process.
+func (s *Solver) SetTimeout(ms int) {
+	s.TimeoutMs = ms
+	if s.Kind == "z3" {
+		s.send(fmt.Sprintf("(set-option :timeout %d)\n", ms))
+	}
+}
+
 func (s *Solver) Close() {
 	if s.cmd != nil {
 		s.in.Close()
@@ -200,6 +208,17 @@ func (s *Solver) Check(assertions []*Term, values []*Term) (Result, map[int]uint
 	sb.WriteString("(check-sat)\n")
 	s.send(sb.String())
 	res := Unknown
+	// hard deadline: z3's own :timeout is not honoured inside some
+	// preprocessing steps, so the process is killed when it overruns
+	watchdog := time.AfterFunc(time.Duration(s.TimeoutMs+15000)*time.Millisecond, func() {
+		if s.cmd != nil && s.cmd.Process != nil {
+			err := s.cmd.Process.Kill()
+			if s.Trace != nil {
+				fmt.Fprintf(s.Trace, "[solver] watchdog fired after %d ms: kill -> %v\n", s.TimeoutMs+15000, err)
+			}
+		}
+	})
+	defer watchdog.Stop()
 	for {
 		line, err := s.readLine()
 		if err != nil {
